@@ -682,6 +682,38 @@ def diff_signature(diffs):
                              for g, d in diffs.items()), sort_keys=True)
 
 
+def shrink_all(reps, run_batch, has_component):
+    """Delta-debug many representatives at once.  reps: {component key: history};
+    run_batch(histories) -> results; has_component(key, history, result) -> bool.  Single events are
+    deleted while the component is still observed; all candidates of a round run in one batch."""
+    active, done = dict(reps), {}
+    while active:
+        cands, owner = [], []
+        for ck, h in list(active.items()):
+            if len(h) <= 1:
+                done[ck] = active.pop(ck)
+                continue
+            for i in range(len(h)):
+                cands.append(h[:i] + h[i + 1:])
+                owner.append(ck)
+        if not cands:
+            break
+        results = run_batch(cands)
+        nxt = {}
+        for ck in active:
+            found = None
+            for c, k, r in zip(cands, owner, results):
+                if k == ck and has_component(ck, c, r):
+                    found = c
+                    break
+            if found is None:
+                done[ck] = active[ck]
+            else:
+                nxt[ck] = found
+        active = nxt
+    return done
+
+
 def diff_text(diffs):
     parts = []
     for g in sorted(diffs):
